@@ -23,3 +23,28 @@ package agd
 //@ func MustRequestInfoFromContext
 //@   modifies nothing
 //@   ensures ri != nil
+
+// ---------------------------------------------------------------------------
+// C09, the per-profile limiter: an address outside the profile's own subnets
+// is left to the global limiter and does not use up the profile's window; any
+// other address is passed or dropped as the profile's window says (the window
+// itself, and that one call adds one event, is RequestCounter.Add, verified in
+// dnsserver/ratelimit).
+
+//@ import ratelimit github.com/AdguardTeam/AdGuardDNS/internal/dnsserver/ratelimit
+//@ import netutil github.com/AdguardTeam/golibs/netutil
+//@ import netip net/netip
+//@ fun subnetsContain(s netutil.SliceSubnetSet, ip netip.Addr) bool
+//@ ext (netutil.SliceSubnetSet).Contains
+//@   params set, ip
+//@   modifies nothing
+//@   ensures result == subnetsContain(set, ip)
+
+//@ func (*DefaultRatelimiter).Check
+//@   property C09
+//@   requires r != nil && RC(r.counter)
+//@   modifies r.counter.ring.cur, r.counter.ring.full, elems(r.counter.ring.buf), rlog[r.counter.ring], rk[r.counter.ring]
+//@   let ring = r.counter.ring
+//@   ensures outside-the-profiles-subnets-leaves-its-window-alone: len(r.clientSubnets) > 0 && !subnetsContain(r.clientSubnets, remoteIP) ==>
+//@             res == 3 && rk[ring] == old(rk[ring])
+//@   ensures otherwise-the-window-decides: !(len(r.clientSubnets) > 0 && !subnetsContain(r.clientSubnets, remoteIP)) ==> res == 1 || res == 2
